@@ -512,6 +512,37 @@ pub fn run(cfg: &Cfg) -> Report {
             cx.rep.cov("boundary:length_carry_0xffffff_program");
         }));
     }
+    // coverage floor: every table kind of this property and every entry kind it accepts must
+    // actually have been observed (a function of the deterministic plan; failing it means the
+    // workload no longer does what it promises — inconclusive, never a violation)
+    if cfg.replay.is_none() && !cfg.mini && cfg.scale_pct >= 100 && rep.violation_count == 0 {
+        const ENTRY_KINDS: [(&str, Kind); 45] = [
+            ("xsdt.entry", Kind::Xsdt), ("mcfg.ecam", Kind::Mcfg), ("madt.lapic", Kind::Madt), ("madt.ioapic", Kind::Madt), ("madt.gicc", Kind::Madt),
+            ("madt.gicd", Kind::Madt), ("madt.gicmsi", Kind::Madt), ("madt.gicr", Kind::Madt), ("madt.its", Kind::Madt), ("madt.rintc", Kind::Madt),
+            ("madt.imsic", Kind::Madt), ("madt.aplic", Kind::Madt), ("madt.plic", Kind::Madt), ("srat.memory", Kind::Srat), ("srat.initiator.acpi", Kind::Srat),
+            ("srat.initiator.pci", Kind::Srat), ("srat.rintc", Kind::Srat), ("slit.set", Kind::Slit), ("hmat.mpda", Kind::Hmat), ("hmat.sllbi", Kind::Hmat),
+            ("hmat.msc", Kind::Hmat), ("pptt.cache", Kind::Pptt), ("pptt.processor", Kind::Pptt), ("rhct.isa", Kind::Rhct), ("rhct.mmu", Kind::Rhct),
+            ("rhct.cmo", Kind::Rhct), ("rhct.hartinfo", Kind::Rhct), ("rimt.iommu", Kind::Rimt), ("rimt.rootcomplex", Kind::Rimt), ("rimt.platform", Kind::Rimt),
+            ("viot.pci_iommu", Kind::Viot), ("viot.mmio_iommu", Kind::Viot), ("viot.pci_range", Kind::Viot), ("viot.mmio_endpoint", Kind::Viot), ("cedt.chbs", Kind::Cedt),
+            ("cedt.cfmws", Kind::Cedt), ("cedt.cxims", Kind::Cedt), ("cedt.rdpas", Kind::Cedt), ("hest.aer_root_port", Kind::Hest), ("hest.aer_device", Kind::Hest),
+            ("hest.aer_bridge", Kind::Hest), ("hest.ghes", Kind::Hest), ("hest.ghes_v2", Kind::Hest), ("rqsc.controller", Kind::Rqsc), ("tpm2.set_log_area", Kind::Tpm2),
+        ];
+        for k in &kinds {
+            if !rep.cov.contains_key(&format!("table:{}", k.name())) {
+                rep.inconclusive(format!("coverage floor: no {} program was observed", k.name()));
+            }
+        }
+        for (name, k) in ENTRY_KINDS {
+            if kinds.contains(&k) && !["first", "middle", "last"].iter().any(|pos| rep.cov.contains_key(&format!("{}:{}", pos, name))) {
+                rep.inconclusive(format!("coverage floor: entry kind {} was never added", name));
+            }
+        }
+        for b in ["boundary:length_carry_0xff", "boundary:length_carry_0xffff", "boundary:count_carry_0xff"] {
+            if !rep.cov.contains_key(b) {
+                rep.inconclusive(format!("coverage floor: {} was never crossed", b));
+            }
+        }
+    }
     rep
 }
 
